@@ -21,6 +21,71 @@ type CondAtom struct {
 	Call *ssa.Call // found / callbool / errnil (call producing the error, when direct)
 	Neg  bool
 	If   ssa.Instruction // the branch (or, for lifted helpers, the return) where the condition is evaluated
+	// Ctx: the condition is the body of a tiny comparison helper (sameAddress(a, b), rec.OwnedBy(x)) called here; X, Y
+	// (and the arguments of Call) are values of that helper and are read in the context of this call
+	Ctx ssa.CallInstruction
+	// Alt: a second reading of the same condition (the body of the tiny helper a callbool atom calls); a guard that
+	// does not recognise the atom itself is tried on Alt
+	Alt *CondAtom
+}
+
+type liftKey struct {
+	v  ssa.Value
+	at ssa.Instruction
+}
+
+// noteLift records, for a lifted atom whose evaluation point is known, in which call its operands are to be read.
+func (p *Program) noteLift(ca *CondAtom) {
+	if ca == nil || ca.Ctx == nil || ca.If == nil {
+		return
+	}
+	if p.lift == nil {
+		p.lift = map[liftKey]ssa.CallInstruction{}
+	}
+	for _, v := range []ssa.Value{ca.X, ca.Y} {
+		if v != nil {
+			p.lift[liftKey{v, ca.If}] = ca.Ctx
+		}
+	}
+	if ca.Call != nil && ca.Kind == "callbool" {
+		for _, a := range ca.Call.Call.Args {
+			p.lift[liftKey{a, ca.If}] = ca.Ctx
+		}
+		if ca.Call.Call.IsInvoke() {
+			p.lift[liftKey{ca.Call.Call.Value, ca.If}] = ca.Ctx
+		}
+	}
+}
+
+// liftTiny: the boolean call goes to one straight-line helper of the repository whose result is a comparison (==, <,
+// an external Equals / bytes.Equal): the comparison itself, to be read in the context of this call.
+func (p *Program) liftTiny(x *ssa.Call, neg bool) *CondAtom {
+	if p.liftDepth > 0 {
+		return nil
+	}
+	cals := p.Callees(x)
+	if len(cals) != 1 || len(cals[0].Blocks) != 1 || !IsCustomFn(cals[0]) {
+		return nil
+	}
+	cal := cals[0]
+	ret, ok := cal.Blocks[0].Instrs[len(cal.Blocks[0].Instrs)-1].(*ssa.Return)
+	if !ok || len(ret.Results) != 1 {
+		return nil
+	}
+	p.liftDepth++
+	sub := p.normVal(ret.Results[0], neg)
+	p.liftDepth--
+	switch sub.Kind {
+	case "eq", "cmp":
+	case "callbool":
+		if sub.Call == nil || len(p.Callees(sub.Call)) != 0 {
+			return nil
+		}
+	default:
+		return nil
+	}
+	sub.Ctx = x
+	return sub
 }
 
 func isNilConst(v ssa.Value) bool {
@@ -36,6 +101,10 @@ func isErrorType(t types.Type) bool {
 func (p *Program) NormCond(ifi *ssa.If) *CondAtom {
 	ca := p.normVal(ifi.Cond, false)
 	ca.If = ifi
+	if ca.Alt != nil {
+		ca.Alt.If = ifi
+		p.noteLift(ca.Alt)
+	}
 	return ca
 }
 
@@ -89,7 +158,7 @@ func (p *Program) normVal(v ssa.Value, neg bool) *CondAtom {
 		}
 	case *ssa.Call:
 		if isBool(x.Type()) {
-			return &CondAtom{Kind: "callbool", Call: x, X: x, Neg: neg}
+			return &CondAtom{Kind: "callbool", Call: x, X: x, Neg: neg, Alt: p.liftTiny(x, neg)}
 		}
 	case *ssa.Phi:
 		// a boolean variable assigned only constants (phi web of constants)
@@ -199,10 +268,10 @@ func (p *Program) PassEdges(fn *ssa.Function, g GuardMatch) map[Edge]bool {
 		}
 		ca := p.NormCond(ifi)
 		// succ 0 = cond true
-		if g(ca, !ca.Neg) {
+		if g(ca, !ca.Neg) || (ca.Alt != nil && g(ca.Alt, !ca.Alt.Neg)) {
 			out[Edge{b, 0}] = true
 		}
-		if g(ca, ca.Neg) {
+		if g(ca, ca.Neg) || (ca.Alt != nil && g(ca.Alt, ca.Alt.Neg)) {
 			out[Edge{b, 1}] = true
 		}
 	}
@@ -1047,9 +1116,89 @@ func SameValue(a, b ssa.Value) bool {
 				}
 				return n <= 1
 			}
+			// the same field read twice through the same pointer (a record handed in by the caller): the same value
+			// when nothing that could write it — a store, a call — lies between the two reads
+			if _, isAlloc := fa.X.(*ssa.Alloc); !isAlloc && la.Parent() != nil && la.Parent() == lb.Parent() {
+				return nothingWritesBetween(la, lb) || nothingWritesBetween(lb, la)
+			}
 		}
 	}
 	return false
+}
+
+// nothingWritesBetween: b is reachable from a, and no instruction on any path from a to b is a store, a call (other
+// than a builtin), a send or a deferred / spawned call.
+func nothingWritesBetween(a, b ssa.Instruction) bool {
+	quiet := func(in ssa.Instruction) bool {
+		switch x := in.(type) {
+		case *ssa.Store, *ssa.MapUpdate, *ssa.Send, *ssa.Go, *ssa.Defer, *ssa.RunDefers:
+			return false
+		case *ssa.Call:
+			_, builtin := x.Call.Value.(*ssa.Builtin)
+			return builtin
+		}
+		return true
+	}
+	ab, bb := a.Block(), b.Block()
+	ia, ib := instrIndex(a), instrIndex(b)
+	if ab == bb && ia < ib {
+		for _, in := range ab.Instrs[ia+1 : ib] {
+			if !quiet(in) {
+				return false
+			}
+		}
+		return true
+	}
+	// blocks reachable from a's block (going forward) that can reach b's block
+	fwd := map[*ssa.BasicBlock]bool{}
+	var f func(x *ssa.BasicBlock)
+	f = func(x *ssa.BasicBlock) {
+		for _, s := range x.Succs {
+			if !fwd[s] {
+				fwd[s] = true
+				f(s)
+			}
+		}
+	}
+	f(ab)
+	if !fwd[bb] {
+		return false
+	}
+	bwd := map[*ssa.BasicBlock]bool{}
+	var g func(x *ssa.BasicBlock)
+	g = func(x *ssa.BasicBlock) {
+		for _, s := range x.Preds {
+			if !bwd[s] {
+				bwd[s] = true
+				g(s)
+			}
+		}
+	}
+	g(bb)
+	if fwd[ab] && bwd[ab] || fwd[bb] && bwd[bb] {
+		return false // a loop through either block: not a straight stretch
+	}
+	for _, in := range ab.Instrs[ia+1:] {
+		if !quiet(in) {
+			return false
+		}
+	}
+	for _, in := range bb.Instrs[:ib] {
+		if !quiet(in) {
+			return false
+		}
+	}
+	for blk := range fwd {
+		if !bwd[blk] || blk == ab || blk == bb {
+			continue
+		}
+		for _, in := range blk.Instrs {
+			if !quiet(in) {
+				return false
+			}
+		}
+	}
+	return true
 }
 
 // BypassExists: is there a path from instruction w to a commit return that does not execute instruction d?
@@ -1134,7 +1283,7 @@ func (p *Program) FlagImplies(fn *ssa.Function, g GuardMatch) GuardMatch {
 					last := pred.Instrs[len(pred.Instrs)-1]
 					if PathExists(fn, removed, last, nil) {
 						ca2 := p.normVal(e, false)
-						if !atomMatches(g, ca2, true, last) {
+						if !p.atomMatches(g, ca2, true, last) {
 							ok = false
 						}
 					}
@@ -1202,7 +1351,7 @@ func (p *Program) ParamFlagImplies(fn *ssa.Function, mk func(f *ssa.Function) Gu
 						continue
 					}
 					ca2 := p.normVal(a, false)
-					if !atomMatches(g, ca2, true, cs) {
+					if !p.atomMatches(g, ca2, true, cs) {
 						return false
 					}
 				}
@@ -1464,7 +1613,7 @@ func (p *Program) LiftGuard(mk func(fn *ssa.Function) GuardMatch, depth int) fun
 				// a forwarded predicate: `return pred(...)` / `return a == b` is the atom itself
 				if _, isC := ret.Results[idx].(*ssa.Const); !isC {
 					ca2 := p.normVal(ret.Results[idx], false)
-					if atomMatches(g, ca2, *wantBool, ret) {
+					if p.atomMatches(g, ca2, *wantBool, ret) {
 						continue
 					}
 				}
@@ -1520,14 +1669,23 @@ func (p *Program) LiftGuard(mk func(fn *ssa.Function) GuardMatch, depth int) fun
 }
 
 // atomMatches evaluates a guard on a returned (not branched-on) condition value.
-func atomMatches(g GuardMatch, ca *CondAtom, want bool, at ssa.Instruction) bool {
+func (p *Program) atomMatches(g GuardMatch, ca *CondAtom, want bool, at ssa.Instruction) bool {
 	truth := want
 	if ca.Neg {
 		truth = !want
 	}
 	tmp := *ca
 	tmp.If = at
-	return g(&tmp, truth)
+	if g(&tmp, truth) {
+		return true
+	}
+	if ca.Alt != nil {
+		alt := *ca.Alt
+		alt.If = at
+		p.noteLift(&alt)
+		return g(&alt, want != alt.Neg)
+	}
+	return false
 }
 
 // NormCondValue normalises an arbitrary boolean value (not necessarily a branch condition).
